@@ -142,8 +142,8 @@ func Programs(tier string) []Prog {
 	for _, wk := range []int{2, 3} {
 		for _, n := range []int{2, 3} {
 			for _, b := range []int{0, 1} {
-				if tier != "thorough" && wk == 3 && n == 3 {
-					continue
+				if tier != "thorough" && (wk == 3 || n == 3 && b == 0) {
+					continue // the larger fan programs need > 30k schedules: thorough only
 				}
 				ps = append(ps, fan(wk, n, b))
 			}
